@@ -190,6 +190,9 @@ pub struct Hyg { pub index: Tk<0>, pub len: B1, pub value: Tk<4>, pub other: Tk<
 shape!(Hyg, HygVec, HygSlice, HygSliceMut, HygRef, HygRefMut, HygPtr, HygPtrMut, drops=false,
     [(index leaf Tk<0>), (len leaf B1), (value leaf Tk<4>), (other leaf Tk<4>), (field leaf Pl), (val leaf Pl)]);
 
+// five more hygiene shapes whose field names are regenerated on every run from the locals the translator finds in /repo
+include!("hygdyn_gen.rs");
+
 // every field nested, the same nested type twice (a swap of the two nested columns type-checks); only zero-sized fields
 soa_struct!(clone, pub struct N2 { #[nested_soa] pub p: Inner, #[nested_soa] pub q: Inner });
 shape!(N2, N2Vec, N2Slice, N2SliceMut, N2Ref, N2RefMut, N2Ptr, N2PtrMut, drops=false, [(p nested Inner), (q nested Inner)]);
